@@ -48,7 +48,8 @@ TextOf(c) == IF "text" \in DOMAIN c THEN c.text ELSE NoText
 \* loader would skip a signature, trim, or add a final newline); RawOutChans: the text is, byte for byte, what the
 \* program writes last (no newline added): at the end of a successful run, before `exit`, before a runtime error.
 EdgeChans == {"prog-head", "prog-tail", "input-head", "input-tail"}
-InChans == {"prog-str", "prog-re", "prog-ws", "prog-cmt", "sel", "fname", "input-str", "input-ws"} \cup EdgeChans
+\* "prog-all": the text IS the program (the empty program, a blank, a lone newline ...)
+InChans == {"prog-str", "prog-re", "prog-ws", "prog-cmt", "prog-all", "sel", "fname", "input-str", "input-ws"} \cup EdgeChans
 RawOutChans == {"out-end", "out-exit", "out-err"}
 OutChans == {"doc-val", "doc-key"} \cup RawOutChans
 LibResults == {[outcome |-> "ok", json |-> "ok"], [outcome |-> "ok", json |-> "err"], [outcome |-> "err", json |-> "na"]}
